@@ -109,7 +109,7 @@ def relaxation_cases(ctx, rng):
 def run(ctx):
     core.coq_phase(ctx, GEN, PROPS)
     rng = dom.rng_for(ctx, 1)
-    n = 16 if ctx.quick else 240
+    n = 20 if ctx.quick else 240
     cases = rescorr.gen_cases(rng, n, ctx.quick) + relaxation_cases(ctx, rng)
     impls = [rescorr.run_impl(c) for c in cases]
     steps = 0
